@@ -21,7 +21,7 @@ AMod(f, n)  == Range(G(f).amod[Idx(n)])
 ADel(f, n)  == Range(G(f).adel[Idx(n)])
 NamesOfCell(e, c) == {nm \in NameSet : CellOf(envs, e, nm) = c}
 
-MInit == Init /\ bad = ""
+MInit == Init /\ bad = <<>>
 MStep ==
   /\ Step
   /\ LET nc == NC(ctrl)  nc2 == NC(ctrl')
@@ -46,12 +46,12 @@ MStep ==
          modBad  == IF sn = 0 THEN {} ELSE modNames \ AMod(sf, sn)
          delBad  == IF sn = 0 THEN {} ELSE delNames \ (ADel(sf, sn) \cup AMod(sf, sn))
      IN
-     bad' = IF bad # "" THEN bad
-            ELSE IF readBad # {} THEN ToString(<<"read", f, n, CHOOSE x \in readBad : TRUE>>)
+     bad' = Note(bad,
+            IF readBad # {} THEN ToString(<<"read", f, n, CHOOSE x \in readBad : TRUE>>)
             ELSE IF lamBad # {} THEN ToString(<<"lambdaread", ND(lnode').fn, lnode', CHOOSE x \in lamBad : TRUE>>)
             ELSE IF modBad # {} THEN ToString(<<"modified", sf, sn, CHOOSE x \in modBad : TRUE>>)
             ELSE IF delBad # {} THEN ToString(<<"deleted", sf, sn, CHOOSE x \in delBad : TRUE>>)
-            ELSE ""
+            ELSE "")
 MSpec == MInit /\ [][MStep]_mvars
 Report == (status[1] # "run") => PrintT(ToJson([pid |-> pid, dec |-> dec, inp |-> inp, bad |-> bad, log |-> log, out |-> status, xlog |-> xlog, xnode |-> xnode, xfirst |-> xfirst, delx |-> delx, oc |-> oc]))
 =============================================================================
